@@ -102,6 +102,78 @@ def _unbounded(fn: ast.FunctionDef, e: ast.expr) -> bool:
     return any(isinstance(t, ast.Tuple) and len(t.elts) == 2 and all(isinstance(x, ast.Constant) and x.value is None for x in t.elts) for t in ast.walk(r))
 
 
+def _both_sides_only(e: ast.expr) -> str | None:
+    """e (locals resolved) is `<bounds> if K else None` (or the mirror image with `not K`) where K, the condition under which the bounds are kept, reads
+    `there is a pair of bounds whose lower AND upper side are both given`: `any(l is not None and u is not None for l, u in bounds)`, the same with
+    `b[0]` / `b[1]`, with one side as the filter of the generator, or the De Morgan image `not all(l is None or u is None for ...)`.
+    Returns the text of K then; None for every other expression or test (also for the correct `or`), which the rule does not judge."""
+    if not isinstance(e, ast.IfExp):
+        return None
+
+    def kept(x):
+        return unparse(x) in ('bounds', 'Bounds(bounds)')
+
+    def none(x):
+        return isinstance(x, ast.Constant) and x.value is None
+
+    if kept(e.body) and none(e.orelse):
+        k, neg = e.test, False
+    elif kept(e.orelse) and none(e.body):
+        k, neg = e.test, True
+    else:
+        return None
+    while isinstance(k, ast.UnaryOp) and isinstance(k.op, ast.Not):
+        k, neg = k.operand, not neg
+    if not (isinstance(k, ast.Call) and isinstance(k.func, ast.Name) and k.func.id in ('any', 'all') and len(k.args) == 1 and not k.keywords
+            and isinstance(k.args[0], (ast.GeneratorExp, ast.ListComp, ast.SetComp)) and len(k.args[0].generators) == 1):  # (the normal form writes the generator as a list)
+        return None
+    gen = k.args[0].generators[0]
+    if (k.func.id == 'any') == neg or unparse(gen.iter) != 'bounds' or gen.is_async:
+        return None  # (after the negations the condition must read `there is a pair such that ...`)
+    tg = gen.target
+
+    def side(x):
+        if isinstance(tg, ast.Tuple) and len(tg.elts) == 2 and all(isinstance(t, ast.Name) for t in tg.elts) and isinstance(x, ast.Name):
+            return [t.id for t in tg.elts].index(x.id) if x.id in [t.id for t in tg.elts] else None
+        if isinstance(tg, ast.Name) and isinstance(x, ast.Subscript) and isinstance(x.value, ast.Name) and x.value.id == tg.id and isinstance(x.slice, ast.Constant) and x.slice.value in (0, 1, -1, -2):
+            return x.slice.value % 2
+        return None
+
+    def conj(p, n):
+        """the sides required to be given (not None) by the conjunction p (negated when n); None: p is not a conjunction once the negation is pushed inside.
+        Conjuncts the rule does not read are left out (they can only make the condition narrower)"""
+        while isinstance(p, ast.UnaryOp) and isinstance(p.op, ast.Not):
+            p, n = p.operand, not n
+        if isinstance(p, ast.BoolOp):
+            if isinstance(p.op, ast.And) == n:
+                return None  # a disjunction
+            out = set()
+            for v in p.values:
+                s = conj(v, n)
+                if s is None:
+                    if n:
+                        return None
+                    continue
+                out |= s
+            return out
+        if isinstance(p, ast.Compare) and len(p.ops) == 1 and none(p.comparators[0]) and isinstance(p.ops[0], (ast.Is, ast.IsNot, ast.Eq, ast.NotEq)):
+            given = isinstance(p.ops[0], (ast.IsNot, ast.NotEq)) != n
+            s = side(p.left)
+            return {s} if given and s is not None else set()
+        return None if n else set()
+
+    need: set = set()
+    for f_ in gen.ifs:
+        need |= conj(f_, False) or set()
+    s = conj(k.args[0].elt, neg)
+    if s is None:
+        return None
+    need |= s
+    if need != {0, 1}:
+        return None
+    return f'`{unparse(e.test)}`' if kept(e.body) else f'`not ({unparse(e.test)})`'
+
+
 def run(ctx: Ctx) -> None:
     ctx.positive_table = list(POSITIVE)
     prog = ctx.prog
@@ -310,6 +382,17 @@ def run(ctx: Ctx) -> None:
         if free:
             ctx.add('C07.R3', f'optimization.{g.name}:bounds-dropped', False, (g.file, free[0].value.lineno), f'{g.name} hands bounds={unparse(free[0].value)[:80]} to its backend: every parameter is unbounded there, '
                     'the declared bounds are not enforced', 'unbounded', positive=True)
+        # the bounds are handed to the call that receives the starting point only under a condition (`bounds if <test> else None`, the test possibly
+        # kept in a local): they may be withheld only when no bound at all is declared.  A test that counts a parameter as bounded only when BOTH its
+        # sides are given leaves every one-sided bound out; any other test is not read (the obligation above stays 'not recognised')
+        for c_ in fw:
+            if not any(_is_start(a_) for a_ in _given(c_)):
+                continue
+            for a_ in _given(c_):
+                why = _both_sides_only(inline_locals(g.node, a_))
+                if why:
+                    ctx.add('C07.R3', f'optimization.{g.name}:bounds-dropped', False, (g.file, a_.lineno), f'{g.name} hands the bounds to its backend only when {why}: a parameter with a single '
+                            'bound (lower only or upper only) counts as unbounded, and when every bound is one-sided none of the declared bounds is enforced', 'one-sided', positive=True)
         if 'bounds' in str(name):
             # the name under which users select it promises bound support
             ctx.add('C07.R3', f'optimization.algorithms[{name}]:advertised', bool(uses), (om.path, k.lineno),
